@@ -21,4 +21,6 @@ def run(res):
     wc.check_and_replay(res, 'c05_disabled', K2, own, depth_all=0, walks=20000 if th else 2000, walk_len=30)
     wc.trace_validate(res, 'c05_recorded', wc.big({'create', 'add', 'remove', 'delete', 'process', 'toggle', 'proc', 'fault', 'ghost'}), 2000 if th else 150, 60)
     wc.repo_tests_validate(res)
+    if th:
+        wc.simulate_big(res, salt=3)
     wc.switch_run(res, 'c05', K, 'ClearDeadGuards', ('ProcessNeverFails', 'RegisteredIffAttached', 'FreedAfterProcess', 'MarksHaveRows'))
